@@ -2,7 +2,7 @@
    The runtime selector (a rewritten tree) is related to the specification's thread set by [rep];
    Explore / Interests / Match of the code correspond to sstep / sinterests / smatch on rep. *)
 Require Import IP.Base.Bytes IP.DM.Value IP.Base.GoSem IP.Trav.Selector IP.Trav.Walk IP.Trav.SelectorSpec
-  IP.Proofs.TravFacts IP.Proofs.TravSel.
+  IP.Proofs.TravFacts IP.Proofs.TravSel IP.Proofs.TravSlice.
 From Coq Require Import Lia.
 Open Scope Z_scope.
 
@@ -134,7 +134,7 @@ Definition lrep_opt (r : option sel) (fr : list frame) : list thr :=
 (* srcw b s: s is a declared (source) selector — every ExploreRecursive still has current = sequence — and
    edges occur only beneath a recursion (b = "an enclosing recursion exists") *)
 Inductive srcw : bool -> sel -> Prop :=
-| sw_match b sl : srcw b (SMatch sl)
+| sw_match b sl : slice_ok sl -> srcw b (SMatch sl)
 | sw_all b nx : srcw b nx -> srcw b (SAll nx)
 | sw_fields b fs : Forall (fun kv => srcw b (snd kv)) fs -> srcw b (SFields fs)
 | sw_index b i nx : srcw b nx -> srcw b (SIndex i nx)
@@ -145,7 +145,7 @@ Inductive srcw : bool -> sel -> Prop :=
 
 (* rt b s: a selector as it occurs during a walk *)
 Inductive rt : bool -> sel -> Prop :=
-| rt_match b sl : rt b (SMatch sl)
+| rt_match b sl : slice_ok sl -> rt b (SMatch sl)
 | rt_all b nx : srcw b nx -> rt b (SAll nx)
 | rt_fields b fs : Forall (fun kv => srcw b (snd kv)) fs -> rt b (SFields fs)
 | rt_index b i nx : srcw b nx -> rt b (SIndex i nx)
@@ -456,16 +456,20 @@ Proof. induction a as [|t a IH]; [reflexivity|]. cbn. destruct (thr_match t n); 
 Lemma smatch_or_nop fr l n : smatch (or_nop fr l) n = smatch l n.
 Proof. destruct l; reflexivity. Qed.
 
-Lemma match_rep s : forall fr n, match_sel s n = smatch (rep s fr) n.
+Lemma match_rep s : forall b fr n, rt b s -> small_top n -> match_sel s n = smatch (rep s fr) n.
 Proof.
   induction s as [sl|nx IH|fs IH|i nx IH|a b' nx IH|ms IH|sq cur lim stop IH1 IH2|] using sel_ind2;
-    intros fr n; try reflexivity.
-  - destruct sl as [ft|]; cbn; [destruct (slice_node ft n)|]; reflexivity.
+    intros b fr n Hrt Hn; try reflexivity.
+  - inversion Hrt; subst. destruct sl as [ft|]; cbn; [|reflexivity].
+    rewrite slice_node_spec by assumption. destruct (spec_slice_node ft n); reflexivity.
   - rewrite match_sel_union. destruct ms as [|m ms]; [reflexivity|]. rewrite rep_union.
-    revert IH. generalize (m :: ms). intros l IH.
+    inversion Hrt as [| | | | |? ? Hms| |]; subst.
+    revert IH Hms. generalize (m :: ms). intros l IH Hl.
     induction l as [|x t IHt]; [reflexivity|]. inversion IH as [|? ? Hx Ht]; subst.
-    cbn [match_any rep_list]. rewrite smatch_app, <- Hx, <- IHt by assumption. reflexivity.
-  - cbn [match_sel rep]. rewrite smatch_or_nop. apply IH2.
+    inversion Hl as [|? ? Rx Rt]; subst.
+    cbn [match_any rep_list]. rewrite smatch_app, <- (Hx b fr n Rx Hn), <- IHt by assumption. reflexivity.
+  - inversion Hrt as [| | | | | |? ? ? ? ? Hsq Hcur|]; subst.
+    cbn [match_sel rep]. rewrite smatch_or_nop. eapply IH2; eassumption.
 Qed.
 
 Definition comb (a b : option (list seg)) : option (list seg) :=
